@@ -2,7 +2,9 @@ import BigtoolsModel.Stats
 import BigtoolsModel.Stats2
 import BigtoolsModel.ChunkLines
 import BigtoolsModel.PyBase
-import BigtoolsModel.AtomsGen
+import BigtoolsModel.AtomsCH
+import BigtoolsModel.AtomsSF
+import BigtoolsModel.AtomsST
 import BigtoolsModel.OverlapsGen
 /-! # C17 — per-region bigWig statistics and values are exact and thread-count independent
 
